@@ -280,6 +280,10 @@ func (pathTargets *pathSubqueryMetadata) extractKeys(node interface{}, path []Pa
 	}
 
 	if len(path) == 0 {
+		if node == nil {
+			// A null object has no keys to fetch more fields for.
+			return nil
+		}
 		obj, ok := node.(map[string]interface{})
 		if !ok {
 			return fmt.Errorf("not an object: %v", obj)
